@@ -7,6 +7,7 @@ def phaseName : Phase → String
   | .subset => "subset" | .toBackend => "toBackend" | .setupPre => "setupPre" | .setupPost => "setupPost"
   | .analyzerInit => "analyzerInit" | .scoreEntry => "scoreEntry" | .rotate => "rotate"
   | .callback => "callback" | .postprocess => "postprocess" | .merge => "merge" | .outerMerge => "outerMerge"
+  | .filter => "filter" | .alloc => "alloc" | .collect => "collect"
 
 def phaseOf (s : String) : Except String Phase :=
   match s with
@@ -14,6 +15,7 @@ def phaseOf (s : String) : Except String Phase :=
   | "setupPost" => pure .setupPost | "analyzerInit" => pure .analyzerInit | "scoreEntry" => pure .scoreEntry
   | "rotate" => pure .rotate | "callback" => pure .callback | "postprocess" => pure .postprocess
   | "merge" => pure .merge | "outerMerge" => pure .outerMerge
+  | "filter" => pure .filter | "alloc" => pure .alloc | "collect" => pure .collect
   | _ => throw "BadArg:phase"
 
 def jPos (p : Pos) : Json := Json.arr #[jStr (phaseName p.phase), jNat p.tile, jNat p.idx]
@@ -26,12 +28,20 @@ def posOf (j : Json) : Except String Pos := do
 def getPlan (a : Json) : Except String Plan := do
   (← getArr a "plan").toList.mapM posOf
 
+/-- optional boolean field (absent = false) -/
+def optBool (c : Json) (k : String) : Except String Bool :=
+  match c.getObjVal? k with
+  | .ok (.bool b) => pure b
+  | .ok _ => throw s!"BadArg:{k}"
+  | .error _ => pure false
+
 def getCfg (a : Json) : Except String Cfg := do
   let c ← a.getObjVal? "cfg"
   pure { ntiles := ← getNat c "ntiles", nrot := ← getNat c "nrot", outer := ← getNat c "outer",
          inner := ← getNat c "inner", hasCb := ← getBool c "hasCb", shared := ← getBool c "shared",
          jpc := ← getNat c "jpc", setupSegs := ← getNat c "setupSegs", cbSegs := ← getNat c "cbSegs",
-         postSegs := ← getNat c "postSegs", copies := ← getBool c "copies" }
+         postSegs := ← getNat c "postSegs", copies := ← getBool c "copies",
+         tfilter := ← optBool c "tfilter", gfilter := ← optBool c "gfilter" }
 
 def tileSchedOf (j : Json) : Except String TileSched := do
   pure { picks := ← getNatList j "picks", jobKill := ← getNatList j "jobKill" }
